@@ -22,6 +22,9 @@ func init() { props["C05"] = c05 }
 type c05Config struct {
 	Auth []string
 	TLS  bool
+	// NoToken: OpenID is enabled but tunnels need no access cookie (Caps.TokenAuth off): the user of the HTTP
+	// authentication is then the tunnel's user also in a configuration with OpenID
+	NoToken bool
 }
 
 func (c c05Config) has(a string) bool {
@@ -32,18 +35,26 @@ func (c c05Config) has(a string) bool {
 	}
 	return false
 }
-func (c c05Config) String() string { return strings.Join(c.Auth, "+") }
+func (c c05Config) String() string {
+	if c.NoToken {
+		return strings.Join(c.Auth, "+") + "/no-token"
+	}
+	return strings.Join(c.Auth, "+")
+}
 
 func c05Configs() []c05Config {
 	var out []c05Config
-	for _, a := range [][]string{{"local"}, {"ntlm"}, {"kerberos"}, {"local", "ntlm"}, {"kerberos", "local"}, {"openid", "local"}, {"openid", "ntlm"}, {"openid", "kerberos"}, {"openid", "kerberos", "local"}, {"openid", "local", "ntlm"}, {"openid"}} {
+	for _, a := range [][]string{{"local"}, {"ntlm"}, {"kerberos"}, {"local", "ntlm"}, {"kerberos", "local"}, {"openid", "local"}, {"openid", "ntlm"}, {"openid", "kerberos"}, {"openid", "kerberos", "local"}, {"openid", "local", "ntlm"}, {"openid"},
+		// no mechanism the gateway knows (a name it does not know): nothing is enabled, nobody gets in, and the
+		// answer to a request without credentials is still 401 (with no challenge to offer)
+		{"pam"}} {
 		tlsOn := false
 		for _, x := range a {
 			if x == "local" {
 				tlsOn = true
 			}
 		}
-		out = append(out, c05Config{a, tlsOn})
+		out = append(out, c05Config{Auth: a, TLS: tlsOn})
 	}
 	return out
 }
@@ -113,7 +124,7 @@ func c05Start(cfg c05Config, real bool) *c05World {
 		sb.WriteString(" Tls: disable\n")
 	}
 	fmt.Fprintf(&sb, "OpenId:\n ProviderUrl: %q\n ClientId: rdpgw\n ClientSecret: secret\n", idp.Issuer)
-	if cfg.has("openid") {
+	if cfg.has("openid") && !cfg.NoToken {
 		sb.WriteString("Caps:\n TokenAuth: true\n")
 	} else {
 		sb.WriteString("Caps:\n TokenAuth: false\n")
@@ -579,6 +590,9 @@ func c05(env *Env, rep *Report) {
 		if cr := w.gw.Crashed(); cr != "" {
 			viol("panic-in-gateway", cr)
 		}
+		if cr := w.auth.Crashed(); cr != "" {
+			viol("panic-ends-the-authentication-service", tail(cr, 600))
+		}
 		if !w.gw.Alive() {
 			viol("gateway-exited", tail(w.gw.Log(), 300))
 		}
@@ -647,7 +661,7 @@ func (w *c05World) authedWS() (net.Conn, *bufio.Reader, string) {
 
 // otherHost: a confirmed user may reach its own host entry and nothing else (host policy is wired for every scheme).
 func (w *c05World) otherHost(viol func(kind, detail string), rep *Report) int {
-	if w.cfg.has("openid") {
+	if w.cfg.has("openid") || !(w.cfg.has("local") || w.cfg.has("ntlm") || w.cfg.has("kerberos")) {
 		return 0
 	}
 	n := 0
@@ -918,7 +932,7 @@ func (w *c05World) withSession(viol func(kind, detail string), rep *Report, ins 
 		return 0
 	}
 	n := 0
-	for _, who := range []string{userA, "mallory"} {
+	for _, who := range []string{userA, userB, "mallory"} {
 		cl := newGwClient(w.gw)
 		if _, why := cl.login(LoopbackIdP(), who); why != "" {
 			rep.capf("C05: OpenID login of %s on %s did not complete (%s): session cases skipped", who, w.cfg, why)
@@ -930,6 +944,24 @@ func (w *c05World) withSession(viol func(kind, detail string), rep *Report, ins 
 		}
 		sort.Strings(cks)
 		cookie := "Cookie: " + strings.Join(cks, "; ")
+		if w.cfg.NoToken && w.cfg.has("local") {
+			// right Basic credentials of user A next to the session of the OpenID user: the tunnel is user A's
+			n++
+			rep.add("executions", 1)
+			w.extra, w.only = []string{cookie}, "basic"
+			c, br, _ := w.authedWS()
+			w.extra, w.only = nil, ""
+			if c == nil {
+				viol("confirmed-basic-credentials-do-not-reach-handler/with-openid-session", "right credentials of "+userA+" together with the session cookie of "+who)
+			} else {
+				got := w.whoIs(c, br)
+				c.Close()
+				rep.outcome(fmt.Sprintf("%s session-of=%s basic-user=%s tunnel-user=%s", w.cfg, who, userA, got))
+				if got != userA {
+					viol("tunnel-does-not-carry-confirmed-user/with-openid-session", fmt.Sprintf("the backend confirmed the Basic credentials of %s, the request also carried the session cookie of an OpenID login of %s; asking for the host of %s: %s", userA, who, userA, got))
+				}
+			}
+		}
 		for _, m := range []string{"ws", "legacy-out"} {
 			for _, in := range ins {
 				n++
